@@ -35,6 +35,16 @@ func (x *Ex) loadEnv(name string) *Env {
 			delete(env.atoms, k)
 		}
 	}
+	// alias texts may mention other aliases: expand them to raw source text first
+	for pass := 0; pass < 5; pass++ {
+		for i := range env.aliases {
+			for j := range env.aliases {
+				if i != j {
+					env.aliases[i][0] = strings.ReplaceAll(env.aliases[i][0], env.aliases[j][1], env.aliases[j][0])
+				}
+			}
+		}
+	}
 	sort.Slice(env.aliases, func(i, j int) bool { return len(env.aliases[i][0]) > len(env.aliases[j][0]) })
 	return env
 }
@@ -279,15 +289,48 @@ func (x *Ex) condDefine(as *ast.AssignStmt, env *Env, condKey string) {
 	}
 }
 
+// condIf walks an if statement that cannot leave the function and records every plain
+// assignment as a conditional definition (the condition being the conjunction of the
+// enclosing tests).
+func (x *Ex) condIf(v *ast.IfStmt, env *Env, outer string) {
+	if v.Init != nil {
+		if as, ok := v.Init.(*ast.AssignStmt); ok {
+			x.define(as, env)
+		}
+	}
+	own := x.inl(v.Cond, env)
+	ck, nk := own, "!("+own+")"
+	if outer != "" {
+		ck, nk = outer+" && "+own, outer+" && !("+own+")"
+	}
+	x.condBlock(v.Body.List, env, ck)
+	switch e := v.Else.(type) {
+	case *ast.BlockStmt:
+		x.condBlock(e.List, env, nk)
+	case *ast.IfStmt:
+		x.condIf(e, env, nk)
+	}
+}
+
+func (x *Ex) condBlock(stmts []ast.Stmt, env *Env, ck string) {
+	for _, s := range stmts {
+		switch b := s.(type) {
+		case *ast.AssignStmt:
+			if b.Tok == token.DEFINE {
+				x.define(b, env)
+			} else {
+				x.condDefine(b, env, ck)
+			}
+		case *ast.IfStmt:
+			x.condIf(b, env, ck)
+		}
+	}
+}
+
 func (x *Ex) trIfRule(v *ast.IfStmt, env *Env, loopKey, outer string, out *[]rule) {
 	if !containsReturn(v) {
 		// no control flow out of the function: only (conditional) definitions matter
-		ck := x.inl(v.Cond, env)
-		for _, s := range v.Body.List {
-			if as, ok := s.(*ast.AssignStmt); ok {
-				x.condDefine(as, env, ck)
-			}
-		}
+		x.condIf(v, env, "")
 		return
 	}
 	var g string
